@@ -21,6 +21,34 @@ mod proofs {
         assert!(logic::c09_merge(&inp).is_ok());
     }
 
+    #[kani::proof]
+    #[kani::unwind(6)]
+    fn k_c09_sort2() {
+        let inp: [u8; 7] = kani::any();
+        assert!(logic::c09_sort2(&inp).is_ok());
+    }
+
+    #[kani::proof]
+    #[kani::unwind(6)]
+    fn k_c09_three_sources() {
+        let inp: [u8; 4] = kani::any();
+        assert!(logic::c09_three_sources(&inp).is_ok());
+    }
+
+    #[kani::proof]
+    #[kani::unwind(30)]
+    fn k_c01_parse_storage() {
+        let inp: [u8; 24] = kani::any();
+        assert!(logic::c01_parse_storage(&inp).is_ok());
+    }
+
+    #[kani::proof]
+    #[kani::unwind(12)]
+    fn k_c03_log_info() {
+        let inp: [u8; 12] = kani::any();
+        assert!(logic::c03_log_info(&inp).is_ok());
+    }
+
     // deliberately failing: used by `./check selftest-kani` to test the counterexample -> replay path
     #[kani::proof]
     fn k_selftest_fail() {
